@@ -531,6 +531,24 @@ def P(ctx, name, inp, klass=None):
     return ok
 
 
+_known = None
+_seen = [0, 0]
+
+
+def enough_failures(ctx, limit=40):
+    """fail fast: stop generating once `limit` predicate failures that are not listed findings were recorded
+    (the run is a VIOLATION already; a broken implementation can make every further call very slow)"""
+    global _known
+    if _known is None:
+        import core
+        _known = [k for k in core.load_known() if k.get('property') == PROPERTY]
+    for f in ctx.pred_fail[_seen[0]:]:
+        if not any(known_match(k, f) for k in _known):
+            _seen[1] += 1
+    _seen[0] = len(ctx.pred_fail)
+    return _seen[1] >= limit
+
+
 # ------------------------------------------------------------------ generators
 def gen_abscissae(rng, n, hot):
     """returns (xs sorted, klass, nice) — nice: small dyadic/integer values (exact model affordable)"""
@@ -823,7 +841,11 @@ def generate(ctx, shard=0, nshards=1):
         check_table(ctx, rng, [26.0, 27.0, 28.0], [-0.4720355555555556, 0.19868916666666666, 0.8607394444444444], 'doc', True)
         check_table(ctx, rng, [0.0, 1.0, 2.0, 3.0, 4.0, 5.0, 6.0], [math.sin(v) for v in range(7)], 'sine_0_6', True, npairs=200)
     ntab = ctx.n(640, 24000) // nshards + 1
+    _seen[0] = _seen[1] = 0
     for _ in range(ntab):
+        if enough_failures(ctx):
+            ctx.notes.append('generation stopped early: more than 40 new predicate failures in this shard')
+            break
         n = rng.choice([2, 3, 3, 4, 5, 5, 6, 7, 8, 9])
         xs, klass, nice = gen_abscissae(rng, n, hot)
         n = len(xs)
@@ -840,6 +862,8 @@ def generate(ctx, shard=0, nshards=1):
         if rng.random() < 0.3:
             check_duplicates(ctx, rng, xs, ys)
     for _ in range(ctx.n(400, 8000) // nshards + 1):
+        if enough_failures(ctx):
+            break
         check_clients(ctx, rng)
     ctx.sample({'call': 'Interpolation([0,1,2,3,4,5,6],[sin(k)]).root(0.5, 2.0)', 'expected': 'ValueError (no sign change in [0.5, 2.0])'})
     ctx.sample({'call': 'Interpolation([7,8,9],[0.884226,0.877366,0.870531])(8.18125)', 'expected': 0.876125})
